@@ -91,7 +91,8 @@ def with_alone(exe_alone, ops, dropped=None):
                 if w[0] != "w":
                     raise RuntimeError(f"alone pass: fault outside a workload: {c[j]!r} -> {r[j]!r}")
                 e = dropped.setdefault(w[2], {})
-                e[r[j][:160]] = e.get(r[j][:160], 0) + 1
+                summ = re.sub(r"\d+", "N", r[j][:160]) if "ubsan:" in r[j] else r[j][:160]
+                e[summ] = e.get(summ, 0) + 1
                 cases[ci] = c[:j] + c[j + 1:]
                 again.append(ci)
                 continue
